@@ -18,6 +18,7 @@ from .C10 import qmat, compose, ident
 CFGS = ['sse2', 'scalar', 'coresimd']
 SHAPE = {'Mat2': (2, 2), 'DMat2': (2, 2), 'Mat3': (3, 3), 'DMat3': (3, 3), 'Mat3A': (3, 3), 'Mat4': (4, 4), 'DMat4': (4, 4), 'Affine3A': (3, 4), 'DAffine3': (3, 4), 'Affine2': (2, 3), 'DAffine2': (2, 3)}   # rows, cols
 
+AFFINE = ('Affine3A', 'DAffine3', 'Affine2', 'DAffine2')
 def entries(structs, t, pre, vs):
     tr = sym(structs, t, pre, vs); L = [l[2] for l in tree_leaves(tr)]; rows, cols = SHAPE[tname(t)]
     return tr, [[L[c * rows + r] for c in range(cols)] for r in range(rows)]
@@ -77,6 +78,13 @@ def lemmas(idx):
                           ('z^2 largest', [alg.cmp_hyp('FLe', m22, 'k0', False), alg.cmp_hyp('FLe', sm, 'k0', True)], q4(tz, [P(m02, m20), P(m12, m21), None, Mn(m01, m10)])),
                           ('w^2 largest', [alg.cmp_hyp('FLe', m22, 'k0', False), alg.cmp_hyp('FLe', sm, 'k0', False)], q4(tw, [Mn(m12, m21), Mn(m20, m02), Mn(m01, m10), None]))]
                     for nm, hy, lanes in br: add(cfg, f, vs, [tree_coq(m)], st, lanes, 'matrix -> quaternion, branch %s' % nm, hyps=hy, tactic=alg.cond_tac())
+                elif tn in SHAPE and f['has_self'] and tr == 'Mul' and name == 'mul' and len(ps) == 1 and tname(ps[0][1]) in SHAPE and tname(ps[0][1]) != tn and tname(f['ret']) in SHAPE and ((tn in AFFINE) != (tname(ps[0][1]) in AFFINE)):
+                    # mixed products (Mat4 * Affine3A, Affine3A * Mat4, Mat3 * Affine2, ...): the product of the homogeneous matrices, in this order
+                    on = tname(ps[0][1]); vs = []; a, A = entries(structs, st, 'a', vs); b, B = entries(structs, ps[0][1], 'b', vs)
+                    ra, ca = SHAPE[tn]; rb, cb = SHAPE[on]; dim = max(ca, cb); ea = homog(A, ra, ca); eb = homog(B, rb, cb)
+                    rr, rc = SHAPE[tname(f['ret'])]
+                    def e(r, c): return alg.S([alg.P(ea(r, j), eb(j, c)) for j in range(dim)])
+                    add(cfg, f, vs, [tree_coq(a), tree_coq(b)], f['ret'], colmajor(e, rr, rc), 'mixed product %s * %s = product of the homogeneous matrices (left operand first)' % (tn, on))
                 elif tn in ('Affine3A', 'DAffine3', 'Affine2', 'DAffine2') and f['has_self']:
                     rows, cols = SHAPE[tn]; d = rows
                     if tr == 'Mul' and name == 'mul' and len(ps) == 1 and tname(ps[0][1]) == tn:
